@@ -170,7 +170,9 @@ func tagsOfSpec(fs *FuncSpec) map[string]bool {
 
 // structural obligations must not disappear between runs of the unchanged contracts.
 func isStructural(name string) bool {
-	for _, p := range []string{"post:", "emits", "inv-init:", "inv-pres:", "frame:", "ho:", "complete", "disjoint", "lemma:"} {
+	// (frame: obligations exist only for arrays some path writes; a change that stops writing one is
+	// harmless, so their disappearance is not reported)
+	for _, p := range []string{"post:", "emits", "inv-init:", "inv-pres:", "ho:", "complete", "disjoint", "lemma:"} {
 		if strings.HasPrefix(name, p) {
 			return true
 		}
@@ -522,6 +524,9 @@ func cmdCheck(args []string) int {
 			have[s] = true
 		}
 		for _, want := range strings.Split(strings.TrimSpace(string(data)), "\n") {
+			if k := strings.Index(want, "#"); k < 0 || !isStructural(want[k+1:]) {
+				continue
+			}
 			if want != "" && !have[want] {
 				violate(strings.SplitN(want, "#", 2)[0], "vanished:"+strings.SplitN(want, "#", 2)[1], "an obligation that is generated on the unchanged tree was not generated", "", "", "", false)
 			}
